@@ -193,7 +193,7 @@ func genText(t *rapid.T) []byte {
 }
 
 var baseNames = []string{"a.log", "b.log", "c.txt", "d", ".hidden.log", "e.log.gz", "f f.log", "z.log"}
-var dirNames = []string{"sub", "deep", "x.d", "logs"}
+var dirNames = []string{"sub", "deep", "x.d", "logs", ".hidden", ".git", "a b", "~tmp"}
 
 func gen(t *rapid.T) Case {
 	c := Case{Obs: pbt.NewObs()}
